@@ -199,6 +199,8 @@ def classify(prop, run_events, rr, viol):
                     mem = "queued-flush-task-abandoned-by-Close"
                 elif r in stranded:
                     mem = "left-in-buffer-after-Close"
+                elif not att and prop == "C03":
+                    mem = "acked-rows-never-reached-any-storage-write"
                 elif not att:
                     mem = "acked-rows-dropped-before-any-storage-write(queue-full/closing)"
                 else:
@@ -264,8 +266,12 @@ def judge(ctx, prop, trace_path, results, scripts, check_drift):
             ctx.violation(sig, wit)
         # drift: the model's prediction for this script vs what the real code did
         if check_drift and rr["kind"] == "script" and not rr.get("diverged"):
-            real_lost = sorted({r for v in viol if v["kind"] == "lost" for r in v["rows"]})
-            real_dup = sorted({r for v in viol if v["kind"] == "duplicate" for r in v["rows"]})
+            sw = set(rr.get("swapped") or [])   # batches whose two hour files were written in the mirror order
+
+            def back(r):
+                return (r + 1 if r % 2 == 1 else r - 1) if ((r - 1) // 2 + 1) in sw else r
+            real_lost = sorted({back(r) for v in viol if v["kind"] == "lost" for r in v["rows"]})
+            real_dup = sorted({back(r) for v in viol if v["kind"] == "duplicate" for r in v["rows"]})
             sc = scripts[rr["script"]]
             pre = sc["gen"]
             for c in sc["hist"]:
